@@ -191,8 +191,10 @@ pub fn configs(tier: Tier) -> Vec<Cfg> {
     // (min, max, start, deposit, withdraw); several start one deposit below the ceiling, so
     // that two racing deposits can overshoot it
     let aimd: Vec<(usize, usize, usize, usize, usize)> = tier.pick(
-        vec![(1, 3, 1, 1, 1), (1, 2, 1, 1, 2), (1, 2, 1, 1, 1), (1, 3, 2, 2, 1)],
-        vec![(1, 3, 1, 1, 1), (1, 2, 1, 1, 2), (1, 2, 1, 1, 1), (1, 3, 2, 2, 1), (1, 3, 1, 2, 1), (1, 3, 2, 1, 2), (1, 3, 0, 1, 1), (1, 3, 2, 2, 2), (1, 4, 3, 1, 1)],
+        // (the last ones: a floor of the ceiling - min_budget - above the deposit amount, and
+        // a balance drained to below it)
+        vec![(1, 3, 1, 1, 1), (1, 2, 1, 1, 2), (1, 2, 1, 1, 1), (1, 3, 2, 2, 1), (3, 4, 0, 1, 1)],
+        vec![(1, 3, 1, 1, 1), (1, 2, 1, 1, 2), (1, 2, 1, 1, 1), (1, 3, 2, 2, 1), (1, 3, 1, 2, 1), (1, 3, 2, 1, 2), (1, 3, 0, 1, 1), (1, 3, 2, 2, 2), (1, 4, 3, 1, 1), (3, 4, 0, 1, 1), (2, 4, 1, 1, 1), (3, 3, 0, 1, 2)],
     );
     for (min, max, initial, deposit, withdraw) in aimd {
         for p in &programs {
